@@ -55,7 +55,7 @@ def run(ck):
         lines.append(line)
         plan.append((impl, sig, line))
 
-    ncase = 700 if thorough else 120
+    ncase = ck.n(120, 700)
     for ci in range(ncase):
         w = worlds[0] if rng.random() < 0.7 else worlds[1]
         P = w.props
@@ -269,7 +269,7 @@ def run(ck):
 
     # ------------------------------------------------------------------ branch guessing: depends on the pressures only
     seqs = [[1, 2, 3, 2, 1], [5, 4, 3, 2, 1], [1, 2, 3, 4], [1, 3, 3, 2], [2, 2, 2], [1], [3, 1, 2, 5, 4], [1, 2, 5, 5, 1]]
-    for _ in range(60 if thorough else 15):
+    for _ in range(ck.n(15, 60)):
         k = rng.randint(1, 9)
         seqs.append([round(rng.uniform(0, 5), 2) for _ in range(k)])
     from pygaps.utilities.math_utilities import split_ads_data
